@@ -517,6 +517,14 @@ class Verifier:
         if goal.op == "bool" and goal.val:
             self.counter["trivial"] = self.counter.get("trivial", 0) + 1
             return
+        # a universally quantified goal is proved for fresh constants (skolemisation of the negated goal): sound, and
+        # it leaves the solvers a quantifier-free goal
+        while goal.op == "forall":
+            bvs, body = goal.args
+            goal = tm.substitute(body, {bv: tm.Fresh("sk." + str(bv.val), bv.sort) for bv in bvs})
+        if goal.op == "bool" and goal.val:
+            self.counter["trivial"] = self.counter.get("trivial", 0) + 1
+            return
         c = self.cur
         key = "%s:%s:%s:%s" % (c.file, c.qualname, kind, label)
         n = self.counter.get(key, 0)
